@@ -19,6 +19,7 @@ pub const T_FROM_PATH: i64 = 5; // rosu_map::from_path over a real temp file
 pub const T_CHAIN: i64 = 6; // std::io::Chain of two slices split at p["split"]
 pub const T_BUFREADER_DEFAULT: i64 = 7; // BufReader::new(&[u8]) (8 KiB)
 pub const T_FROM_BYTES: i64 = 8;
+pub const T_FROM_PATH_PIPE: i64 = 9; // rosu_map::from_path over /proc/self/fd/<pipe> (a path whose metadata reports length 0)
 
 pub fn transport_name(t: i64) -> &'static str {
     match t {
@@ -30,6 +31,7 @@ pub fn transport_name(t: i64) -> &'static str {
         T_FROM_PATH => "transport.from_path-real-fs",
         T_CHAIN => "transport.chain-of-slices",
         T_BUFREADER_DEFAULT => "transport.std-BufReader-8k",
+        T_FROM_PATH_PIPE => "transport.from_path-pipe-via-procfs",
         _ => "transport.from_bytes",
     }
 }
@@ -78,7 +80,14 @@ pub fn plan_transport(rng: &mut Rng, plan: &mut Plan, sim_only: bool) {
             70..=74 => T_SLICE,
             75..=79 => T_CURSOR,
             80..=84 => T_FROM_STR,
-            85..=87 => T_FROM_PATH,
+            85 | 86 => T_FROM_PATH,
+            87 => {
+                if len <= 60_000 {
+                    T_FROM_PATH_PIPE
+                } else {
+                    T_FROM_PATH
+                }
+            }
             88..=94 => T_CHAIN,
             _ => T_BUFREADER_DEFAULT,
         }
@@ -298,6 +307,32 @@ pub fn decode_via(plan: &Plan, dec: Dec, st: &mut Stats) -> Via {
                 }
             };
             let _ = std::fs::remove_file(&path);
+            Via { out, rs: None, err_is_injected: false }
+        }
+        T_FROM_PATH_PIPE => {
+            // a non-regular "file": the bytes sit in a kernel pipe (<= 60 KB, so writing never blocks) and are opened
+            // by path through procfs. Real OS; falls back to from_bytes where procfs or pipes are unavailable.
+            use std::io::Write as _;
+            use std::os::fd::AsRawFd;
+            let out = match std::io::pipe() {
+                Ok((rd, mut wr)) if data.len() <= 60_000 => {
+                    let ok = wr.write_all(data).is_ok();
+                    drop(wr);
+                    let path = format!("/proc/self/fd/{}", rd.as_raw_fd());
+                    if ok && std::path::Path::new(&path).exists() {
+                        let r = conv(from_path_fp(dec, std::path::Path::new(&path))).0;
+                        drop(rd);
+                        r
+                    } else {
+                        st.inc("realfs.pipe-unavailable");
+                        conv(from_bytes_fp(dec, data)).0
+                    }
+                }
+                _ => {
+                    st.inc("realfs.pipe-unavailable");
+                    conv(from_bytes_fp(dec, data)).0
+                }
+            };
             Via { out, rs: None, err_is_injected: false }
         }
         T_CHAIN => {
